@@ -65,7 +65,7 @@ Proof.
   pose proof (link_next fuel A s c Hf) as H. rewrite a_next_state_id, Hv in H. cbn [bind] in H.
   unfold a_state_at in H. rewrite a_state_nth in H by (destruct Hwf as [Hl _]; lia).
   destruct (M_Automaton_next fuel A s c) as [s'|] eqn:E; [|discriminate].
-  exists s'. split; auto. eapply next_in. exact E.
+  exists s'. split; auto. apply (next_in fuel A s c s' Hf). exact E.
 Qed.
 
 (* non-vacuity: the two-state automaton for "strings that start with 'a'" *)
